@@ -139,3 +139,73 @@ func (e *Explorer) freshGrid(r int) (sym, string) {
 	e.PC = append(e.PC, "(<= (- "+lim.String()+") "+n+")", "(<= "+n+" "+lim.String()+")")
 	return sym{sReal, 0, n}, n
 }
+
+// ---- Go integers as SMT Ints (exact-grid mode) ----
+
+func realToIntTrunc(x string) string {
+	s := gridScale().String()
+	if gridBits == 0 {
+		return x
+	}
+	return "(ite (>= " + x + " 0) (div " + x + " " + s + ") (- (div (- " + x + ") " + s + ")))"
+}
+
+// toInt lifts a bit-vector literal to an Int literal.
+func toInt(a sym, signed bool) sym {
+	switch a.k {
+	case sInt:
+		return a
+	case sBV:
+		var u uint64
+		if n, _ := fmt.Sscanf(a.t, "#x%x", &u); n == 1 && len(a.t) == 2+a.w/4 {
+			v := new(big.Int).SetUint64(u)
+			if signed && a.w <= 64 && u>>(uint(a.w)-1) == 1 {
+				v.Sub(v, new(big.Int).Lsh(big.NewInt(1), uint(a.w)))
+			}
+			return sym{sInt, 0, intLit(v)}
+		}
+		panic(unsupported("mixing bit-vector and Int-encoded integers"))
+	}
+	panic(unsupported("toInt of a non-integer"))
+}
+
+func intBinop(op token.Token, a, b sym) value {
+	f := ""
+	switch op {
+	case token.LSS:
+		f = "<"
+	case token.LEQ:
+		f = "<="
+	case token.GTR:
+		f = ">"
+	case token.GEQ:
+		f = ">="
+	case token.EQL:
+		return mkBool("(= " + a.t + " " + b.t + ")")
+	case token.NEQ:
+		return mkBool("(not (= " + a.t + " " + b.t + "))")
+	case token.ADD:
+		return sym{sInt, 0, "(+ " + a.t + " " + b.t + ")"}
+	case token.SUB:
+		return sym{sInt, 0, "(- " + a.t + " " + b.t + ")"}
+	case token.REM:
+		// Go's %: truncated division, sign of the dividend.  For a zero divisor Go panics;
+		// the non-zero-divisor obligation is generated at materialisation.
+		absb := "(ite (>= " + b.t + " 0) " + b.t + " (- " + b.t + "))"
+		return sym{sInt, 0, "(ite (>= " + a.t + " 0) (mod " + a.t + " " + absb + ") (- (mod (- " + a.t + ") " + absb + ")))"}
+	}
+	if f != "" {
+		return mkBool("(" + f + " " + a.t + " " + b.t + ")")
+	}
+	panic(unsupported(fmt.Sprintf("operator %v on Int-encoded integers", op)))
+}
+
+// freshInt draws an Int-encoded integer with |n| <= 2^r.
+func (e *Explorer) freshInt(prefix string, r int) sym {
+	e.nvars++
+	n := fmt.Sprintf("%s%d", prefix, e.nvars)
+	e.declare(n, sInt, 0)
+	lim := new(big.Int).Lsh(big.NewInt(1), uint(r))
+	e.PC = append(e.PC, "(<= (- "+lim.String()+") "+n+")", "(<= "+n+" "+lim.String()+")")
+	return sym{sInt, 0, n}
+}
